@@ -11,25 +11,29 @@ VARIABLE l
 Tr == ndJsonDeserialize(IOEnv.TRACE)
 TraceConfigs == {Tr[k].cfg : k \in 1 .. Len(Tr)}
 
-\* the scanner tabulated over the lines that occur in the trace (constant: evaluated once)
+\* The scanner tabulated once over the lines that occur in the trace.  TLC does not cache constant definitions that
+\* are reached through a substituted constant operator, so the table is parked in TLC register 2 (single worker).
 TraceLines == UNION {UNION {{c[i] : i \in 1 .. Len(c)} : c \in {Tr[k].cfg.content[f] : f \in 1 .. Len(Tr[k].cfg.content)}} : k \in 1 .. Len(Tr)}
-ScanTabT == [ln \in TraceLines |-> Scan(ln)]
-ScTrace(ln) == ScanTabT[ln]
+ScTrace(ln) == TLCGet(2)[ln]                                   \* = Scan(ln)
 
 NoAlpha(a, f) == {}
+SelfLine(e) == e
+NoFixedLen(c, f) == 0
+NoFixedLine(c, f, i) == 0
 Observed(cs) == SelectSeq(cs, LAMBDA c : c.h # 0)
 Shown(cs) == [i \in 1 .. Len(cs) |-> [h |-> cs[i].h, k |-> cs[i].k, x |-> IF cs[i].k = "L" THEN cs[i].x ELSE 0,
                                       t |-> IF cs[i].k = "L" THEN cs[i].t ELSE <<>>, si |-> cs[i].si, so |-> cs[i].so]]
 ObsTrace(op, input, ret, post) ==
-    /\ ret = Tr[l].ret
-    /\ Shown(Observed(post.calls)) = Tr[l].post.calls
-    /\ post.snap = Tr[l].post.snap
-    /\ post.fds = Tr[l].post.fds
-    /\ TLCSet(1, l)
+    \/ op = "unjudged" /\ TLCSet(1, l)          \* an execution that leaves the universe of the statement (X rules) is not judged
+    \/ /\ op = "parse" /\ ret = Tr[l].ret
+       /\ Shown(Observed(post.calls)) = Tr[l].post.calls
+       /\ post.snap = Tr[l].post.snap
+       /\ post.fds = Tr[l].post.fds
+       /\ TLCSet(1, l)
 
-TraceInit == Init /\ cfg = Tr[1].cfg /\ l = 1 /\ TLCSet(1, 0)
+TraceInit == TLCSet(2, [ln \in TraceLines |-> Scan(ln)] @@ <<>>) /\ Init /\ cfg = Tr[1].cfg /\ l = 1 /\ TLCSet(1, 0)
 NextExec ==
-    /\ phase = "done" /\ l < Len(Tr)
+    /\ phase \in {"done", "unjudged"} /\ l < Len(Tr)
     /\ l' = l + 1
     /\ cfg' = Tr[l + 1].cfg
     /\ phase' = "setup" /\ regpos' = 0
@@ -37,15 +41,9 @@ NextExec ==
     /\ ctab' = <<[name |-> S_null, h |-> 0]>> /\ c_idx' = 0 /\ c_cnt' = 20
     /\ cst' = <<[id |-> 0, st |-> 0]>> /\ cs_idx' = 0 /\ cs_cnt' = 20
     /\ fst' = <<>> /\ f_idx' = 0 /\ f_cnt' = 10
-    /\ vars' = {} /\ tokc' = 0 /\ calls' = <<>> /\ retnull' = FALSE /\ skipUsed' = FALSE
+    /\ vars' = {} /\ tokc' = 0 /\ calls' = <<>> /\ retnull' = FALSE /\ skipUsed' = FALSE /\ acts' = {}
 \* an execution that leaves the universe of the statement (X rules of ConfParse) is not judged
-Unjudged ==
-    /\ phase = "beyond" /\ TLCSet(1, l)
-    /\ phase' = "done" /\ l' = l
-    /\ UNCHANGED <<cfg, regpos, content, closed, ctab, c_idx, c_cnt, cst, cs_idx, cs_cnt, fst, f_idx, f_cnt,
-                   vars, tokc, calls, retnull, skipUsed>>
-TraceStep == \/ phase \notin {"done", "beyond"} /\ Next /\ l' = l
-             \/ Unjudged
+TraceStep == \/ phase \notin {"done", "unjudged"} /\ Next /\ l' = l
              \/ NextExec
 TraceSpec == TraceInit /\ [][TraceStep]_<<vars_all, l>>
 TraceAccepted == \/ TLCGet(1) = Len(Tr)
